@@ -92,6 +92,9 @@ var docMenu = []struct {
 	{"slash-end", "/** served under /api/v1/*/", "served under /api/v1/", false},
 	{"star-end", "/** banner **/", "banner *", false},
 	{"glob-line", "/**\n * matches src/**\n */", "matches src/**", false},
+	// docstrings without text
+	{"empty-multiline", "/**\n */", "", false},
+	{"blank-lines", "/**\n\n*/", "", false},
 }
 
 // Deviations lists every single deviation applicable to the token stream.
